@@ -370,6 +370,19 @@ impl<'a> ExecutionEngine<'a> {
         Ok(
             match self.statement.join_clause() {
                 Some(join_clause) => {
+                    // The ON column of the queried table is resolved per input line: it must be reported also when no line is read
+                    let from = match self.statement {
+                        Statement::Select(statement) => Some(&statement.from),
+                        Statement::Aggregate(statement) => Some(&statement.from),
+                        _ => None
+                    };
+
+                    if let Some(table_definition) = from.and_then(|from| self.tables.get(from)) {
+                        if table_definition.index_for(&join_clause.joiner_column).is_none() {
+                            return Err(ExecutionError::ColumnNotFound(join_clause.joiner_column.clone()));
+                        }
+                    }
+
                     self.joined_table_data = Some(JoinedTableData::execute(self.tables, running.clone(), join_clause)?);
                 },
                 None => {
